@@ -415,7 +415,7 @@ def rule_R6(ctx, f):
                     caps = oi[0].args[1][3]
                     if cl:
                         ctx.saw(cl)
-                        w = cl.calls_to(["MetricVec::with_label_values", "MetricVec::get_metric_with_label_values"])
+                        w = cl.calls_to(["MetricVec::with_label_values", "MetricVec::get_metric_with_label_values", "MetricVecCore::get_metric_with_label_values"])
                         if len(w) == 1:
                             def cap(t):
                                 t = peel(t)
@@ -423,9 +423,13 @@ def rule_R6(ctx, f):
                                     return peel(caps[int(t[2])])
                                 return t
                             from pvrules import seqeval as _sq
-                            okc = cap(w[0].args[0]) == SELF_FIELD("vec") and cap(w[0].args[1]) == P2 and is_call(cl.term_local(0), ["local"]) and \
+                            # (the wrapped vector, or its core for the core's own lookup-or-create)
+                            recv_ok = cap(w[0].args[0]) == (("field", SELF_FIELD("vec"), "v") if w[0].matches("MetricVecCore::get_metric_with_label_values") else SELF_FIELD("vec"))
+                            okc = recv_ok and cap(w[0].args[1]) == P2 and is_call(cl.term_local(0), ["local"]) and \
                                 (peel(cl.term_local(0)[2][0], transparent=[]) == w[0].result_term() or
-                                 peel(_sq._unwrap_payload(cl.term_local(0)[2][0], stop=w[0].result_term()), transparent=[]) == w[0].result_term())
+                                 peel(_sq._unwrap_payload(cl.term_local(0)[2][0], stop=w[0].result_term()), transparent=[]) == w[0].result_term() or
+                                 # `get_metric_with_label_values(vals).unwrap()` is what `with_label_values(vals)` is
+                                 (not w[0].matches("MetricVec::with_label_values") and peel(cl.term_local(0)[2][0], transparent=["Result::unwrap", "Result::expect"]) == w[0].result_term()))
                 if not oi:
                     # `match self.local.entry(hash) { Occupied(e) => e.into_mut(), Vacant(e) => e.insert(self.vec.with_label_values(vals).local()) }`
                     vi = b.calls_to("VacantEntry::insert")
